@@ -12,11 +12,20 @@ package c05
 // usable-live distinct values nobody live holds.  With an injected store failure: the failed new allocation
 // leaves no live subscriber behind, a failed re-ask leaves the existing assignment alone, and everything
 // above keeps holding afterwards.
+//
+// Secondary mutators (everything real callers use besides the primary allocate/release pair: the second entry point
+// of an implementation, DHCP Decline, and - in dhcp4srv_test.go - Claim/Reassign/Decline/ReleaseClient of dhcp.Pool
+// under the DHCPv4 server's call discipline) are part of the histories.  A declined value is QUARANTINED (documented
+// as taken out of service): it is neither live nor obtainable, so everywhere above "usable" reads
+// "usable - quarantined".  For the free-list pools the pool's own tables (verif accessors, copies) must in addition
+// conserve the address set after every step: allocated + free + quarantined is exactly the set the pool started with,
+// each address once, and the allocated table holds exactly the model's live subscribers.
 
 import (
 	"errors"
 	"fmt"
 	"math"
+	"sort"
 	"strings"
 	"testing"
 	"testing/synctest"
@@ -89,6 +98,10 @@ type run struct {
 	reapplied bool
 	orphans   []string // values a subscriber was moved away from by a re-ask: must be obtainable again
 	cls       map[string]bool
+	quar      map[string]bool // values taken out of service by a Decline (documented: not returned to the free list)
+	quarLog   []string        // the same in order of quarantine
+	base      map[string]bool // free-list pools: the address set the pool started with (from its own free list)
+	secondary bool            // a secondary mutator changed the state of a live holder
 }
 
 func (r *run) logf(f string, a ...any) { r.ops = append(r.ops, fmt.Sprintf(f, a...)) }
@@ -129,6 +142,18 @@ func (r *run) fail(kind, f string, a ...any) {
 
 func (r *run) live() uint64 { return uint64(len(r.has)) }
 
+// out is the number of units that are neither free nor obtainable without being a leak: live + quarantined.
+func (r *run) out() uint64 { return uint64(len(r.has) + len(r.quar)) }
+
+// quarantine records that val was declined: taken out of service.
+func (r *run) quarantine(val string) {
+	if val == "" || r.quar[val] {
+		return
+	}
+	r.quar[val] = true
+	r.quarLog = append(r.quarLog, val)
+}
+
 func (r *run) free(s string) {
 	if v, ok := r.has[s]; ok {
 		delete(r.has, s)
@@ -156,6 +181,10 @@ func (r *run) handed(s, val, how string) {
 	}
 	if err := pools.RangeCheck(r.f.Net, r.f.Unit, val); err != nil {
 		r.fail("out-of-range", "%s(%s) -> %s: %v", how, s, val, err)
+		return
+	}
+	if r.quar[val] {
+		r.fail("declined-reissued/after-"+how, "%s(%s) -> %s, which was declined earlier (documented: taken out of service, not handed out again)", how, s, val)
 		return
 	}
 	if prev, ok := r.has[s]; ok && prev != val {
@@ -197,7 +226,8 @@ func (r *run) afterStep(after string) {
 			return
 		}
 	}
-	if !r.opt.checkStats {
+	r.stateCheck(after)
+	if r.dead || !r.opt.checkStats {
 		return
 	}
 	cfg := ""
@@ -209,7 +239,10 @@ func (r *run) afterStep(after string) {
 	if st, ok := r.p.(pools.Statser); ok {
 		a, t, u, hasU := st.Stats()
 		bad := a != r.live()
-		if !r.f.Huge && t != r.f.Usable {
+		// a total is documented as allocated + free: quarantined units are in neither (only dhcp.Pool has both
+		// statistics and a quarantine: Total = len(available) + len(allocated))
+		wantTotal := r.f.Usable - uint64(len(r.quar))
+		if !r.f.Huge && t != wantTotal {
 			bad = true
 		}
 		if hasU && r.f.UtilOf != nil && !r.f.Huge {
@@ -219,8 +252,22 @@ func (r *run) afterStep(after string) {
 			}
 		}
 		if bad {
-			r.fail("stats-mismatch/after-"+after+cfg, "Stats()=(allocated %d, total %d, utilisation %v) but live=%d usable=%d", a, t, u, r.live(), r.f.Usable)
+			r.fail("stats-mismatch/after-"+after+cfg, "Stats()=(allocated %d, total %d, utilisation %v) but live=%d usable=%d quarantined=%d", a, t, u, r.live(), r.f.Usable, len(r.quar))
 			return
+		}
+		if sx, ok := r.p.(pools.StatsExter); ok && !r.f.Huge {
+			av, un, hasUn := sx.StatsExt()
+			if av != wantTotal-r.live() || (hasUn && un != uint64(len(r.quar))) {
+				r.fail("stats-mismatch/after-"+after+cfg, "Stats()=(available %d, unavailable %d) but usable=%d live=%d quarantined=%d: %d are free", av, un, r.f.Usable, r.live(), len(r.quar), wantTotal-r.live())
+				return
+			}
+		}
+		if as, ok := r.p.(pools.AltStatser); ok {
+			a2, t2, av2, err := as.AltStats()
+			if err != nil || a2 != r.live() || t2 != wantTotal || av2 != wantTotal-r.live() {
+				r.fail("alt-stats-mismatch/after-"+after+cfg, "status through the second entry point = (allocated %d, total %d, available %d, err %v) but live=%d usable=%d", a2, t2, av2, err, r.live(), r.f.Usable)
+				return
+			}
 		}
 	}
 	if sc, ok := r.p.(pools.StoreCounter); ok {
@@ -234,6 +281,116 @@ func (r *run) afterStep(after string) {
 		if uint64(a) != r.live() || (totalKnown && !r.f.Huge && r.f.Usable < 1<<31 && uint64(t) != r.f.Usable) {
 			r.fail("store-util-mismatch/after-"+after+cfg, "GetPoolUtilization=(%d,%d) but live=%d usable=%d", a, t, r.live(), r.f.Usable)
 			return
+		}
+	}
+}
+
+// stateCheck is conservation on a free-list pool's own tables (copies through the verif accessors): the addresses in
+// the allocated table, the free list and quarantine are exactly the set the pool started with, each once; the allocated
+// table holds exactly the model's live subscribers with the values they were handed.
+func (r *run) stateCheck(after string) {
+	sn, ok := r.p.(pools.Snapshotter)
+	if !ok || r.dead {
+		return
+	}
+	st := sn.Snapshot()
+	if r.base == nil {
+		// right after construction: the free list IS the pool's address set; its size is the documented usable count
+		r.base = make(map[string]bool, len(st.Available))
+		for _, v := range st.Available {
+			if r.base[v] {
+				r.fail("state-duplicate/after-"+after, "a fresh pool has %s in its free list twice", v)
+				return
+			}
+			r.base[v] = true
+		}
+		max := r.f.UsableMax
+		if max == 0 {
+			max = r.f.Usable
+		}
+		if n := uint64(len(r.base)); n < r.f.Usable || n > max || len(st.Allocated) != 0 {
+			r.fail("state-size/after-"+after, "a fresh pool has %d free and %d allocated addresses, documented usable=%d", n, len(st.Allocated), r.f.Usable)
+		}
+		return
+	}
+	// the allocated table: exactly the live subscribers
+	known := map[string]string{}
+	for _, s := range subs {
+		k := sn.Key(s)
+		known[k] = s
+		got, want := st.Allocated[k], r.has[s]
+		switch {
+		case want != "" && got != want:
+			r.fail("table-mismatch/after-"+after, "the pool's table has %q for %s, which was handed %q and never gave it up", got, s, want)
+			return
+		case want == "" && got != "":
+			r.fail("ghost-allocation/after-"+after, "the pool's table still has %s -> %s although that binding ended (counted as allocated, held by nobody)", s, got)
+			return
+		}
+	}
+	if len(st.Allocated) != len(r.has) {
+		keys := make([]string, 0, len(st.Allocated))
+		for k := range st.Allocated {
+			if _, ok := known[k]; !ok {
+				keys = append(keys, k)
+			}
+		}
+		sort.Strings(keys)
+		r.fail("ghost-allocation/after-"+after, "the pool's table has %d entries, %d subscribers are live; entries of nobody: %v", len(st.Allocated), len(r.has), keys)
+		return
+	}
+	// conservation of the address set
+	seen := make(map[string]string, len(r.base))
+	place := func(v, where string) bool {
+		if !r.base[v] {
+			r.fail("state-foreign/after-"+after, "%s is %s but was not in the pool when it was created", v, where)
+			return false
+		}
+		if w, dup := seen[v]; dup {
+			r.fail("state-duplicate/after-"+after, "%s is %s and %s at once", v, w, where)
+			return false
+		}
+		seen[v] = where
+		return true
+	}
+	for _, s := range subs {
+		if v := st.Allocated[sn.Key(s)]; v != "" && !place(v, "allocated to "+s) {
+			return
+		}
+	}
+	for _, v := range st.Available {
+		if !place(v, "in the free list") {
+			return
+		}
+	}
+	for _, v := range r.quarLog {
+		if !place(v, "quarantined (declined)") {
+			return
+		}
+	}
+	if len(seen) != len(r.base) {
+		var lost []string
+		for v := range r.base {
+			if _, ok := seen[v]; !ok {
+				lost = append(lost, v)
+			}
+		}
+		sort.Strings(lost)
+		r.fail("leak/after-"+after, "%v: in neither the allocated table nor the free list nor declined: held by nobody and obtainable by nobody (allocated %d + free %d + quarantined %d = %d, pool started with %d)",
+			lost, len(st.Allocated), len(st.Available), len(r.quar), len(seen), len(r.base))
+		return
+	}
+	// the implementation's own record of what was taken out of service
+	if _, records := r.p.(pools.QuarantineRecorder); records {
+		if len(st.Quarantine) != len(r.quar) {
+			r.fail("quarantine-mismatch/after-"+after, "the pool records %v as unavailable, declined were %v", st.Quarantine, r.quarLog)
+			return
+		}
+		for _, v := range st.Quarantine {
+			if !r.quar[v] {
+				r.fail("quarantine-mismatch/after-"+after, "the pool records %s as unavailable, nobody declined it (declined: %v)", v, r.quarLog)
+				return
+			}
 		}
 	}
 }
@@ -255,12 +412,14 @@ func (r *run) drain() {
 	if max == 0 {
 		max = r.f.Usable
 	}
-	want := r.f.Usable - r.live()
-	if r.live() > r.f.Usable {
+	// quarantined (declined) units are documented as out of service: neither live nor obtainable
+	out := r.out()
+	want := r.f.Usable - out
+	if out > r.f.Usable {
 		want = 0
 	}
-	limit := max - r.live() + 2
-	if r.live() > max {
+	limit := max - out + 2
+	if out > max {
 		limit = 2
 	}
 	capped := false
@@ -285,6 +444,10 @@ func (r *run) drain() {
 		}
 		if o, ok := r.holder[v]; ok {
 			r.fail("drain-duplicate"+r.shape(), "drain probe: fresh subscriber %s obtained %s which live subscriber %s holds", s, v, o)
+			return
+		}
+		if r.quar[v] {
+			r.fail("declined-reissued/drain", "drain probe: fresh subscriber %s obtained %s, which was declined earlier (documented: taken out of service, not handed out again)", s, v)
 			return
 		}
 		if o, ok := got[v]; ok {
@@ -312,23 +475,29 @@ func (r *run) drain() {
 		return
 	}
 	if n < want {
-		r.fail(short+r.shape(), "drain probe: %d fresh subscribers obtained a value, usable=%d live=%d: %d usable addresses are neither held nor obtainable", n, r.f.Usable, r.live(), want-n)
+		r.fail(short+r.shape(), "drain probe: %d fresh subscribers obtained a value, usable=%d live=%d quarantined=%d: %d usable addresses are neither held nor obtainable", n, r.f.Usable, r.live(), len(r.quar), want-n)
 		return
 	}
-	if n > max-r.live() && r.live() <= max {
-		r.fail("drain-long"+r.shape(), "drain probe: %d fresh subscribers obtained a value but only %d-%d=%d units exist", n, max, r.live(), max-r.live())
+	if n > max-out && out <= max {
+		r.fail("drain-long"+r.shape(), "drain probe: %d fresh subscribers obtained a value but only %d-%d-%d=%d units exist that are neither held nor declined", n, max, r.live(), len(r.quar), max-out)
 	}
 }
 
 // runHistory executes ops on a fresh instance of f.
-func runHistory(ft fataler, f pools.Factory, ops []pools.Op, opt runOpt) result {
+func newRun(ft fataler, f pools.Factory, opt runOpt) *run {
 	r := &run{f: f, ft: ft, opt: opt, has: map[string]string{}, holder: map[string]string{}, touched: map[string]uint64{},
-		maybe: map[string]uint64{}, ambig: map[string]string{}, advSince: map[string]int{}, cls: map[string]bool{}}
+		maybe: map[string]uint64{}, ambig: map[string]string{}, advSince: map[string]int{}, cls: map[string]bool{}, quar: map[string]bool{}}
 	r.p = f.New(opt.failAt)
-	defer r.p.Close()
 	r.logf("new %s", f.Desc)
 	r.afterStep("new")
+	return r
+}
+
+func runHistory(ft fataler, f pools.Factory, ops []pools.Op, opt runOpt) result {
+	r := newRun(ft, f, opt)
+	defer r.p.Close()
 	ep, _ := r.p.(pools.Epocher)
+	alt, _ := r.p.(pools.AltEntry)
 	maxAdvSinceAlloc := 0 // epoch advances that followed the first successful allocation
 	allocated := false
 	for _, op := range ops {
@@ -336,7 +505,7 @@ func runHistory(ft fataler, f pools.Factory, ops []pools.Op, opt runOpt) result 
 			break
 		}
 		s := subs[op.S%len(subs)]
-		if (op.K == pools.OpRelease || op.K == pools.OpRenew) && op.V%4 != 0 {
+		if (op.K == pools.OpRelease || op.K == pools.OpRenew || op.K == pools.OpReleaseAlt || op.K == pools.OpDecline) && op.V%4 != 0 {
 			var holders []string
 			for _, x := range subs {
 				if _, ok := r.has[x]; ok {
@@ -349,49 +518,75 @@ func runHistory(ft fataler, f pools.Factory, ops []pools.Op, opt runOpt) result 
 		}
 		name := op.K.String()
 		switch op.K {
-		case pools.OpAlloc:
+		case pools.OpAlloc, pools.OpAllocAlt:
 			held, holds := r.has[s]
 			if holds && f.Impl == "pppoe" && vstat.IsListed("C05/pppoe/drain-short/reask") && op.V%8 != 0 {
 				continue // steer around the listed re-ask leak in 7 of 8 re-asks
 			}
-			v, err := r.p.Alloc(s)
-			r.logf("alloc(%s)=%s,%s", s, v, okerr(err))
+			var v string
+			var err error
+			if op.K == pools.OpAllocAlt {
+				// the same request through the implementation's second entry point (pools.AltEntry)
+				if alt == nil {
+					continue
+				}
+				v, err = alt.AllocAlt(s)
+			} else {
+				v, err = r.p.Alloc(s)
+			}
+			r.logf("%s(%s)=%s,%s", name, s, v, okerr(err))
 			if err != nil {
 				if injected(err) {
 					r.faulted = true
 					if holds {
 						if got, sup := r.lookup(s); sup && got != held {
-							r.fail("reask-lost/store-fail", "alloc(%s) re-ask failed to persist and the pre-existing assignment %s was taken away (lookup=%q) although it was never released", s, held, got)
+							r.fail("reask-lost/store-fail"+viaAlt(op.K), "alloc(%s) re-ask failed to persist and the pre-existing assignment %s was taken away (lookup=%q) although it was never released", s, held, got)
 						}
 						r.maybe[s] = r.epoch() // a re-ask renews the lease; whether this one did is resolved by observation
 					} else if got, sup := r.lookup(s); sup && got != "" {
-						r.fail("failed-alloc-live/store-fail", "alloc(%s) failed to persist but the pool still reports %q for it", s, got)
+						r.fail("failed-alloc-live/store-fail"+viaAlt(op.K), "alloc(%s) failed to persist but the pool still reports %q for it", s, got)
 					}
 					break
 				}
 				if holds {
 					// a refused re-ask on a FULL pool is C01's concern (same value on re-ask), not a leak or miscount
-					if !(pools.IsExhausted(err) && r.live() >= f.Usable) {
-						r.fail("reask-failed"+r.shape(), "alloc(%s) failed (%v) although it holds %s and live=%d < usable=%d", s, err, held, r.live(), f.Usable)
+					if !(pools.IsExhausted(err) && r.out() >= f.Usable) {
+						r.fail("reask-failed"+r.shape()+viaAlt(op.K), "%s(%s) failed (%v) although it holds %s and live=%d < usable=%d", name, s, err, held, r.live(), f.Usable)
 					}
-				} else if r.live() < f.Usable {
+				} else if r.out() < f.Usable {
 					kind := "exhausted-early"
 					if !pools.IsExhausted(err) {
 						kind = "alloc-error"
 					}
-					r.fail(kind+r.shape(), "alloc(%s) failed (%v) with live=%d < usable=%d: a usable address is neither held nor obtainable", s, err, r.live(), f.Usable)
+					r.fail(kind+r.shape()+viaAlt(op.K), "%s(%s) failed (%v) with live=%d quarantined=%d < usable=%d: a usable address is neither held nor obtainable", name, s, err, r.live(), len(r.quar), f.Usable)
 				}
 				break
 			}
 			if holds {
 				r.cls["reask"] = true
 			}
+			if op.K == pools.OpAllocAlt {
+				r.cls["alloc-alt"] = true
+				r.secondary = true
+			}
 			allocated = true
-			r.handed(s, v, "alloc")
-		case pools.OpRelease:
+			r.handed(s, v, name)
+		case pools.OpRelease, pools.OpReleaseAlt:
 			held, holds := r.has[s]
-			err := r.p.Release(s)
-			r.logf("release(%s)=%s", s, okerr(err))
+			var err error
+			if op.K == pools.OpReleaseAlt {
+				if alt == nil {
+					continue
+				}
+				err = alt.ReleaseAlt(s)
+				if holds {
+					r.cls["release-alt"] = true
+					r.secondary = true
+				}
+			} else {
+				err = r.p.Release(s)
+			}
+			r.logf("%s(%s)=%s", name, s, okerr(err))
 			if err != nil {
 				if injected(err) {
 					r.faulted = true
@@ -407,7 +602,7 @@ func runHistory(ft fataler, f pools.Factory, ops []pools.Op, opt runOpt) result 
 					break
 				}
 				if holds {
-					r.fail("release-failed"+r.shape(), "release(%s) failed (%v) although it holds %s", s, err, held)
+					r.fail("release-failed"+r.shape()+viaAlt(op.K), "%s(%s) failed (%v) although it holds %s", name, s, err, held)
 				}
 				break
 			}
@@ -545,6 +740,7 @@ func runHistory(ft fataler, f pools.Factory, ops []pools.Op, opt runOpt) result 
 				}
 				rm.RemoteSet(s, v)
 				r.logf("remoteSet(%s,%s)", s, v)
+				r.cls["remote"] = true
 			}
 			if identical {
 				r.reapplied = true
@@ -563,6 +759,22 @@ func runHistory(ft fataler, f pools.Factory, ops []pools.Op, opt runOpt) result 
 			}
 			rm.RemoteDelete(s)
 			r.logf("remoteDel(%s)", s)
+			r.cls["remote"] = true
+			r.free(s)
+		case pools.OpDecline:
+			d, ok := r.p.(pools.Decliner)
+			if !ok {
+				continue
+			}
+			held, holds := r.has[s]
+			d.Decline(s)
+			r.logf("decline(%s) [%s]", s, held)
+			if holds {
+				// the binding ends; the value is taken out of service (documented), not handed to anybody again
+				r.quarantine(held)
+				r.cls["decline"] = true
+				r.secondary = true
+			}
 			r.free(s)
 		default:
 			continue
@@ -572,6 +784,12 @@ func runHistory(ft fataler, f pools.Factory, ops []pools.Op, opt runOpt) result 
 			break // a re-ask changed the value (C01's finding): decide its C05 consequence (leak) by the drain now
 		}
 	}
+	return r.finish(maxAdvSinceAlloc)
+}
+
+// finish runs the drain probe and classifies the case.
+func (r *run) finish(maxAdvSinceAlloc int) result {
+	f, opt := r.f, r.opt
 	res := result{advances: r.advances}
 	if fp, ok := r.p.(pools.Faulty); ok {
 		res.storeCalls = fp.StoreCalls() // store calls made by the history itself (the drain probe comes after)
@@ -594,9 +812,21 @@ func runHistory(ft fataler, f pools.Factory, ops []pools.Op, opt runOpt) result 
 	if r.advances >= 5 {
 		cls = append(cls, "advances>=5(beyond-2bit-wrap)")
 	}
+	if r.secondary {
+		cls = append(cls, "nt:secondary-mutator", "nt:secondary-mutator/"+f.Impl)
+		res.nt = true
+	}
+	if len(r.quar) > 0 {
+		cls = append(cls, "has:quarantined/"+f.Impl)
+	}
 	for _, c := range []string{"reask", "reload"} {
 		if r.cls[c] {
 			cls = append(cls, "has:"+c)
+		}
+	}
+	for _, c := range []string{"alloc-alt", "release-alt", "decline", "remote"} {
+		if r.cls[c] {
+			cls = append(cls, "has:"+c+"/"+f.Impl)
 		}
 	}
 	if opt.checkStats {
@@ -606,6 +836,14 @@ func runHistory(ft fataler, f pools.Factory, ops []pools.Op, opt runOpt) result 
 	}
 	res.classes = cls
 	return res
+}
+
+// viaAlt is the signature suffix of a violation caused by a call through the second entry point.
+func viaAlt(k pools.Kind) string {
+	if k == pools.OpAllocAlt || k == pools.OpReleaseAlt {
+		return "/via-alt-entry"
+	}
+	return ""
 }
 
 // pickVal selects a value for value-targeted ops: small unit indices of the pool.
